@@ -51,6 +51,7 @@ from .values import (
     py_isspace,
     py_repeat,
     py_chars_subset,
+    py_lstrip_chars,
     py_lstrip,
     py_rstrip,
     py_strip,
@@ -1240,6 +1241,18 @@ class Engine(object):
                 else:
                     st.assume(s == z3.Concat(r, b))
                 self.assumptions.add("stdlib spec: s.%s() is a contiguous piece of s with only removed characters around it (s == a ++ s.%s() ++ b)" % (m, m))
+                return [(st, VStr(r))]
+            if m == "lstrip" and len(args) == 1 and isinstance(args[0], VStr) and z3.is_string_value(args[0].z) and len(args[0].z.as_string()) >= 1:
+                chars = args[0].z.as_string()
+                r = py_lstrip_chars(s, args[0].z)
+                a = fresh("stripped", S)
+                st.assume(s == z3.Concat(a, r))
+                for c in chars:
+                    st.assume(z3.Not(z3.PrefixOf(z3.StringVal(c), r)))
+                if len(chars) == 1:
+                    # the removed prefix consists of that character only
+                    st.assume(z3.Or(a == EMPTY, z3.And(z3.PrefixOf(args[0].z, a), z3.SuffixOf(args[0].z, a))))
+                self.assumptions.add("stdlib spec: s.lstrip(chars) is a suffix of s that does not start with any of chars")
                 return [(st, VStr(r))]
             if m == "startswith" and len(args) == 1 and isinstance(args[0], VStr):
                 return [(st, VBool(z3.PrefixOf(args[0].z, s)))]
